@@ -415,9 +415,16 @@ class vDDDLists:
             if 'TZID' in dt.params:
                 tzid = dt.params['TZID']
 
+        params = {}
+        value_types = {dt.params.get('VALUE') for dt in vDDD}
+        if len(value_types) == 1 and None not in value_types:
+            # all entries are DATE (or all PERIOD): not the default DATE-TIME
+            params['VALUE'] = value_types.pop()
         if tzid:
             # NOTE: no support for multiple timezones here!
-            self.params = Parameters({'TZID': tzid})
+            params['TZID'] = tzid
+        if params:
+            self.params = Parameters(params)
         self.dts = vDDD
 
     def to_ical(self):
